@@ -6,7 +6,7 @@ HERE = os.path.dirname(os.path.abspath(__file__))
 CLAIMED = {
     "C19": dict(
         text="Proof: the real writers of nsl/WebAssembly.py (PackInteger, WriteInteger, Instruction.WriteTo, WriteString, Export/Local/Table/Memory.WriteTo, the six section writers, Code.Encode) are executed symbolically on the full 32-bit ranges and on opaque names/payloads of symbolic length; every path's bytes are decoded by the standard LEB128 decoders (spec functions) and each clause is discharged by z3. Callers of WriteInteger are verified against its contract (modular cut).",
-        note="Trusted: CPython, pyvc proxies/path oracle, z3; str.encode('utf-8'); number of section entries: unbounded for the six section writers (C19.frame.unbounded, loop cut), enumerated for Code.Encode (0-3 local groups / instructions) (thorough: up to 300; entry sizes symbolic); the LEB128 length is the exact piecewise function (C19.leb.unsigned.length-exact); composition into whole modules is C07.",
+        note="Trusted: CPython, pyvc proxies/path oracle, z3; str.encode('utf-8'); number of section entries: unbounded for the six section writers (C19.frame.unbounded, loop cut), unbounded for Code.Encode too (C19.frame.unbounded.Code: both loops cut) (thorough: up to 300; entry sizes symbolic); the LEB128 length is the exact piecewise function (C19.leb.unsigned.length-exact); composition into whole modules is C07.",
         technique="contract-based deductive verification: symbolic execution of the real functions with z3 proxies, LEB128 decoder as spec function, modular contract cut for WriteInteger",
         design="DESIGN.md section 4 (C19)"),
 }
@@ -144,7 +144,7 @@ EXTRA5 = {
 }
 EXTRA6 = {
     "C20": " C20.map.unbounded / C20.merge.unbounded: the line table with its lookups and Location.Merge for ANY number of lines / arguments -- the loops of SourceMapping.__init__ and Location.Merge are cut mechanically at an inductive invariant (init / preserve / exit obligations on the real prologue, loop body and epilogue; bisect cut by its contract, its sortedness precondition an obligation). C20.lex.frame: no lexer action changes a token's value or offset (frame condition on the source of every t_* action), so __GetLocation's [lexpos, lexpos + len(value)) is the token's text.",
-    "C19": " C19.frame.unbounded: the six section writers for ANY number of entries (entry loop cut at an inductive invariant: uleb(n), then entries 0..k-1 in order, code bodies directly preceded by uleb(|body|), byte count T(k)); the enumerated entry counts remain as suppliers of witnesses.",
+    "C19": " C19.frame.unbounded: the six section writers for ANY number of entries (entry loop cut at an inductive invariant: uleb(n), then entries 0..k-1 in order, code bodies directly preceded by uleb(|body|), byte count T(k)); C19.frame.unbounded.Code: Code.Encode for any number of local groups and instructions (both loops cut); the enumerated entry counts remain as suppliers of witnesses.",
     "C07": " C19.frame.unbounded (see C19): section framing for any number of entries.",
     "C13": " C13.literal.value: the integer-literal grammar actions (decimal, octal, hexadecimal) put the number written into the tree, for literals of any magnitude (int() cut by its contract over unbounded integers) -- the bounds check sees the constant the program contains.",
     "C01": " C13.literal.value also serves C01 (a constant denotes the number written).",
